@@ -11,8 +11,11 @@ import (
 	"fmt"
 	"os"
 	"path/filepath"
+	"runtime"
+	"strings"
 	"sync"
 	"sync/atomic"
+	"syscall"
 	"testing"
 
 	"github.com/mdlayher/corerad/internal/verifh"
@@ -85,6 +88,51 @@ func TestVerifState(t *testing.T) {
 		c := verifh.Case{ID: id, Input: map[string]any{"kind": "state-ghost", "call": p.name, "iface": ghost}, Observed: fmt.Sprint(p.err), Tags: []string{"state-ghost"}}
 		if !errors.Is(p.err, os.ErrNotExist) {
 			c.ImplViolation = fmt.Sprintf("State.%s on an interface that does not exist: want an error matching os.ErrNotExist, got %v", p.name, p.err)
+		}
+		out.Emit(c)
+	}
+
+	// ---- per-interface semantics in a private network namespace (root only): the forwarding state of an
+	// interface is ITS sysctl, whatever conf/all says, in both directions
+	if out.Wants("state-netns") {
+		c := verifh.Case{ID: "state-netns", Input: map[string]any{"kind": "state-netns"}, Tags: []string{"state-netns"}}
+		res := make(chan string, 1)
+		go func() {
+			// this thread moves into a new network namespace and is thrown away with the goroutine
+			runtime.LockOSThread()
+			if err := syscall.Unshare(syscall.CLONE_NEWNET); err != nil {
+				res <- "unavailable: " + err.Error()
+				return
+			}
+			w := func(ifn, v string) error {
+				return os.WriteFile(filepath.Join("/proc/sys/net/ipv6/conf", ifn, "forwarding"), []byte(v), 0o644)
+			}
+			var bad []string
+			for _, tc := range []struct{ all, lo string }{{"1", "0"}, {"0", "1"}, {"1", "1"}, {"0", "0"}} {
+				// writing conf/all also rewrites every interface: set it first, then the interface
+				if err := w("all", tc.all); err != nil {
+					res <- "unavailable: " + err.Error()
+					return
+				}
+				if err := w("lo", tc.lo); err != nil {
+					res <- "unavailable: " + err.Error()
+					return
+				}
+				got, err := NewState().IPv6Forwarding("lo")
+				if err != nil {
+					bad = append(bad, fmt.Sprintf("all=%s lo=%s: %v", tc.all, tc.lo, err))
+				} else if got != (tc.lo == "1") {
+					bad = append(bad, fmt.Sprintf("conf/all/forwarding=%s conf/lo/forwarding=%s: IPv6Forwarding(lo) = %v", tc.all, tc.lo, got))
+				}
+			}
+			res <- strings.Join(bad, "; ")
+		}()
+		r := <-res
+		if strings.HasPrefix(r, "unavailable") {
+			c.Tags = append(c.Tags, "realos:unavailable")
+			c.Observed = r
+		} else {
+			c.ImplViolation = r
 		}
 		out.Emit(c)
 	}
